@@ -27,7 +27,7 @@ RULE = ("definitions with >=3 symbols per role and >=2 sensors x >=2 readings, b
         "non-trivial = (definition, variant) whose hash seed or permutation differs from variant 0; distinct = "
         "(definition index, hash seed, permutation seed, containers)")
 ASSUMPTIONS = [
-    "two variants agree iff all 11 digests agree",
+    "two variants agree iff all 10 digests agree",
 ]
 
 N_DEF = {"quick": 6, "thorough": 48}
@@ -57,7 +57,7 @@ def floors(tier):
     n = N_DEF[tier] * N_VAR[tier]
     return {"evals": n * 3 // 4, "distinct": N_DEF[tier] * 3,
             "counters": {"children_reported": n * 3 // 4, "definitions_compared": N_DEF[tier] * 3 // 4,
-                         "digest_pairs_compared": N_DEF[tier] * (N_VAR[tier] - 2) * 11}}
+                         "digest_pairs_compared": N_DEF[tier] * (N_VAR[tier] - 2) * 10 * 3 // 4}}
 
 
 def run_unit(unit, ctx):
